@@ -25,7 +25,7 @@ func init() { core.Register(c12{}) }
 func (c12) ID() string    { return "C12" }
 func (c12) Level() string { return "fault_enumeration" }
 func (c12) Rule() string {
-	return "flip cases: small pristine databases built deterministically (variants: plain 1 file; rotated 3 files with overwrites, tombstones and a committed batch; unsealed batch tail; un-adopted finished merge so that hint file, marker and rewritten files are read by Open; a merge over ~10 files in which uniformly sized live and dead records alternate, damaged in the marker only (a flipped bit of the boundary id yields a smaller, non-zero id); 34 KiB variant with a 2-chunk record, thorough only); EVERY single-bit flip of EVERY byte of EVERY file (data, hint, marker) is applied to a fresh copy, then Open, full dump (ListKeys, Get of every key ever written, Fold), Close. damage cases: larger databases (200 KiB..1 MiB, multi-block records) with random 1..64-byte overwrites, truncation to every length of the last two blocks and random lengths elsewhere, a block replaced by garbage or zeros, bit flips in an older data file whose size is an exact multiple of 32 KiB, every bit of the length and type fields of seed-chosen chunk headers (block-filling chunks of multi-block records preferred), and live faults (overwrite; truncation under standard I/O) applied to the files of an OPEN database whose buffers were warmed by earlier reads, observed through Get/Fold on that handle; additionally, decided for the never-a-panic clause only: a block replaced by a copy of another block (intact chunks in the wrong place) and two files exchanged; the damaged file is also fed to the sequential reader directly. Oracle: a panic or process death is a violation; otherwise Open may fail, any Get/Fold may fail with an error other than key-not-found, or every key must map to its latest written value (deleted keys stay absent, no key that was never written appears); only when the damaged newest data file is byte for byte a possible torn-write image (truncation of that file, damage inside its last record, or a chunk of it whose header/declared length now reaches beyond the end of the file, which no reader can tell from the crash tail C03 requires recovery to accept) the mapping may instead be one of the prefix states S_j. Non-trivial: fault that hits a chunk header field or record header of a record that is live; distinct = (variant, file, byte, bit) resp. hash of the fault description"
+	return "flip cases: small pristine databases built deterministically (variants: plain 1 file; rotated 3 files with overwrites, tombstones and a committed batch; unsealed batch tail; un-adopted finished merge so that hint file, marker and rewritten files are read by Open; a merge over ~10 files in which uniformly sized live and dead records alternate, damaged in the marker only (a flipped bit of the boundary id yields a smaller, non-zero id); 34 KiB variant with a 2-chunk record, thorough only); EVERY single-bit flip of EVERY byte of EVERY file (data, hint, marker) is applied to a fresh copy, then Open (every third refused Open is repeated, also under the other I/O type: a refusal must not turn into acceptance), full dump (ListKeys, Get of every key ever written, Fold), Close. damage cases: larger databases (200 KiB..1 MiB, multi-block records) with random 1..64-byte overwrites, truncation to every length of the last two blocks and random lengths elsewhere, a block replaced by garbage or zeros, bit flips in an older data file whose size is an exact multiple of 32 KiB, every bit of the length and type fields of seed-chosen chunk headers (block-filling chunks of multi-block records preferred), and live faults (overwrite; truncation under standard I/O) applied to the files of an OPEN database whose buffers were warmed by earlier reads, observed through Get/Fold on that handle; additionally, decided for the never-a-panic clause only: a block replaced by a copy of another block (intact chunks in the wrong place) and two files exchanged; the damaged file is also fed to the sequential reader directly. Oracle: a panic or process death is a violation; otherwise Open may fail, any Get/Fold may fail with an error other than key-not-found, or every key must map to its latest written value (deleted keys stay absent, no key that was never written appears); only when the damaged newest data file is byte for byte a possible torn-write image (truncation of that file, damage inside its last record, or a chunk of it whose header/declared length now reaches beyond the end of the file, which no reader can tell from the crash tail C03 requires recovery to accept) the mapping may instead be one of the prefix states S_j. Non-trivial: fault that hits a chunk header field or record header of a record that is live; distinct = (variant, file, byte, bit) resp. hash of the fault description"
 }
 func (c12) Assumptions() []string {
 	return []string{"torn-tail window as stated in the rule (narrowest oracle that does not contradict C03)", "CRC-32 collisions are not constructed"}
@@ -255,7 +255,29 @@ func c12Observe(root string, p *pristine, tailWindow bool, res *core.Result) (ou
 		return "panic", fmt.Sprintf("Open panicked: %v\n%s", pv, st)
 	}
 	if err != nil {
-		return "open-error", ""
+		// a refused Open must stay refused: every third refusal is followed by a second Open
+		// of the same directory and a third one under the other I/O type; one that succeeds
+		// is judged like any other successful Open (the failed attempt must not have
+		// "repaired" the directory into accepting the damage)
+		res.Add("outcome_open_error_first_attempt", 1)
+		if res.Counters["outcome_open_error_first_attempt"]%3 != 1 {
+			return "open-error", ""
+		}
+		for attempt := 0; attempt < 2 && err != nil; attempt++ {
+			cfg2 := p.cfg
+			if attempt == 1 {
+				cfg2.FileIO = 1 - cfg2.FileIO
+			}
+			pv, st = core.Safe(func() { db, err = kv.Open(cfg2.Options(filepath.Join(root, "db"))) })
+			if pv != nil {
+				return "panic", fmt.Sprintf("repeated Open panicked: %v\n%s", pv, st)
+			}
+			res.Add("opens_repeated_after_a_refusal", 1)
+		}
+		if err != nil {
+			return "open-error", ""
+		}
+		res.Add("repeated_opens_that_succeeded", 1)
 	}
 	defer func() { core.Safe(func() { db.Close() }) }()
 	d, pv, st := core.DumpDB(db, p.ever)
